@@ -116,6 +116,27 @@ theorem C33_known_endpoint_not_renotified (w : World) (n who : String) (e : Ent)
   unfold noteKnown
   simp only [hf, hk, if_true]
 
+/-- D-listen-2, repaired: an inconsistent remote endpoint is a new inconsistency at most once, and not at all when its type
+    was already reported on arrival of its representation (the topic-discovery / type-lookup path keeps reporting) -/
+theorem C33_inconsistent_endpoint_reported_once (w : World) (topic who whoTy : String) (t : Ent)
+    (hf : w.find topic = some t) (h : t.known.contains who = true ∨ t.badTypes.contains whoTy = true) :
+    (noteEndpoint w topic who whoTy).2 = false := by
+  unfold noteEndpoint
+  rcases h with h | h
+  · simp only [hf, h, if_true]
+  · by_cases hk : t.known.contains who = true
+    · simp only [hf, hk, if_true]
+    · have hk' : ¬ who ∈ t.known := by simpa using hk
+      have h' : whoTy ∈ t.badTypes := by simpa using h
+      simp [hf, hk', h']
+
+/-- a discovered type is counted once per topic: resolving it again changes nothing -/
+theorem C33_inconsistent_type_counted_once (w : World) (local_ remoteTy : String) (t : Ent)
+    (hf : w.find local_ = some t) (h : t.badTypes.contains remoteTy = true) : resolveType w local_ remoteTy = w := by
+  unfold resolveType
+  have h' : remoteTy ∈ t.badTypes := by simpa using h
+  simp [hf, h']
+
 /-! ### the code before the patches (regression witnesses; each was replayed on the real code, see notes/w2a.md) -/
 
 /-- the old code reached the named receiver outside the two findings -/
@@ -206,6 +227,23 @@ example :
     let w0 : World := { ents := [p, g, s, t, wr, r1, r2] }
     (meet w0 "w" "r1").log.length = 1 ∧ (meet (meet w0 "w" "r1") "w" "r1").log.length = 1 ∧
     (meet (meet w0 "w" "r1") "w" "r2").log.length = 2 := by
+  decide
+
+/-- two topics T of different type in two participants: one notification on each at discovery; a writer and a reader created
+    afterwards are evaluated but add nothing; the old iteration would have notified again -/
+example :
+    let l : Slot := { installed := true, mask := [.inconsistentTopic] }
+    let p1 : Ent := { name := "P1", kind := .participant, parent := "", slot := l }
+    let p2 : Ent := { name := "P2", kind := .participant, parent := "", slot := l }
+    let g : Ent := { name := "pub", kind := .publisher, parent := "P1" }
+    let s : Ent := { name := "sub", kind := .subscriber, parent := "P2" }
+    let t1 : Ent := { name := "t1", kind := .topic, parent := "P1", tname := "T", ty := "ki" }
+    let t2 : Ent := { name := "t2", kind := .topic, parent := "P2", tname := "T", ty := "ni" }
+    let wr : Ent := { name := "w", kind := .writer, parent := "pub", topic := "t1", reliable := true }
+    let rd : Ent := { name := "r", kind := .reader, parent := "sub", topic := "t2", reliable := true }
+    let w0 : World := meetTopics { ents := [p1, p2, g, s, t1, t2, wr, rd] } "t2"
+    w0.log = ["P1.on_inconsistent_topic src=t1", "P2.on_inconsistent_topic src=t2"] ∧
+    (meet w0 "w" "r").log.length = 2 ∧ ((meet w0 "w" "r").find "t1").map (·.incons) = some 1 := by
   decide
 
 /-- data-on-readers wins over the reader's data-available -/
